@@ -1,5 +1,6 @@
 import PgFdr.Proofs.C06
 import PgFdr.Proofs.C01
+import PgFdr.Proofs.Pipeline
 
 /-!
 # C06 — every reported row is consistent with its group's evidence peptides
@@ -30,7 +31,9 @@ pipeline a group's evidence never holds a peptide twice — it is built from a d
 (peptide, protein) incidences.  `cutoff = none` is `float("inf")`.
 
 "no protein occurs in two rows" needs the partition property of the grouping stage (C03/C04);
-here it is proved relative to that: `rows_disjoint_partial`.
+at the level of this stage it is proved relative to that: `rows_disjoint_partial`.  The full statement,
+for the whole inference function, is `pipeline_rows_disjoint` at the end of this file (together with
+`pipeline_rows_consistent`, which discharges `Consistent` for the pipeline).
 -/
 namespace PgFdr.C06
 
@@ -370,5 +373,141 @@ example : ([3, 2, 1] : List Rat).Pairwise (· ≥ ·) := by decide +kernel
 example : exGroups.Pairwise (fun a b => ∀ p, p ∈ a → p ∉ b) := by decide +kernel
 
 example : fromProteinGroups [["G1"]] [[]] [1] [1] none true = .error "no_evidence" := by decide +kernel
+
+/-! ## The row statements for the whole inference function
+
+`PgFdr.Pipeline.run cfg inp` (`Model/Pipeline.lean`) is the composed executable model of
+`get_protein_group_results` that the driver op `pipeline` runs and `harness/pipeline.py` compares with the
+real function.  The theorems below hold for EVERY configuration (grouping no / subset / rescued subset /
+pseudo-gene × razor × picked / picked-group / classic), every recorded shuffle, cut map, score vector and
+rescue cutoff.  The only hypothesis is `Pipeline.distinctPeptides inp.pil`: no peptide key occurs twice in
+the peptide list — the implementation's `PeptideInfoList` is a Python `dict`, so every input the real
+function can receive satisfies it.  It is needed twice: the grouping stage partitions the proteins only
+for a dict (C03 `subset_partition`, `hkeys`), and an evidence list holds a peptide once only then, which is
+what makes the count of "distinct such peptides" a function of the evidence (`Consistent`). -/
+
+/-- `rows_disjoint_partial` with the hypothesis the pipeline can deliver: it suffices that no protein
+    occurs in two input groups that are NOT placeholders (`is_obsolete` groups are skipped by
+    `from_protein_groups`, so what they list does not matter) -/
+theorem rows_disjoint_regular (groups : List (List String)) (infos : List (List Evidence))
+    (scores qvals : List Rat) (cutoff : Option Rat) (keepAll : Bool) (rows : List RowData)
+    (h : fromProteinGroups groups infos scores qvals cutoff keepAll = .ok rows)
+    (hd : groups.Pairwise (fun a b => isObsolete a = false → isObsolete b = false → ∀ p, p ∈ a → p ∉ b)) :
+    rows.Pairwise (fun a b => ∀ p, p ∈ a.proteins → p ∉ b.proteins) := by
+  obtain ⟨idx, h1, h2, h3⟩ := report_alignment groups infos scores qvals cutoff keepAll rows h
+  rw [List.pairwise_iff_getElem]
+  intro a b ha hb hab
+  have hia : a < idx.length := by omega
+  have hib : b < idx.length := by omega
+  obtain ⟨ra, ga, ia, sa, qa, hra, hga, _, _, _, _, _, hoa, hfa⟩ := h3 a idx[a] (List.getElem?_eq_getElem hia)
+  obtain ⟨rb, gb, ib, sb, qb, hrb, hgb, _, _, _, _, _, hob, hfb⟩ := h3 b idx[b] (List.getElem?_eq_getElem hib)
+  rw [List.getElem?_eq_getElem ha] at hra
+  rw [List.getElem?_eq_getElem hb] at hrb
+  obtain rfl := Option.some.inj hra
+  obtain rfl := Option.some.inj hrb
+  have hlt : idx[a] < idx[b] := List.pairwise_iff_getElem.mp h1 a b hia hib hab
+  have hla : idx[a] < groups.length := (List.getElem?_eq_some_iff.mp hga).1
+  have hlb : idx[b] < groups.length := (List.getElem?_eq_some_iff.mp hgb).1
+  have hdis := List.pairwise_iff_getElem.mp hd idx[a] idx[b] hla hlb hlt
+  rw [List.getElem?_eq_getElem hla] at hga
+  rw [List.getElem?_eq_getElem hlb] at hgb
+  obtain rfl := Option.some.inj hga
+  obtain rfl := Option.some.inj hgb
+  obtain ⟨pa, -⟩ := fromProteinGroup_some _ _ _ _ _ _ _ hfa
+  obtain ⟨pb, -⟩ := fromProteinGroup_some _ _ _ _ _ _ _ hfb
+  intro p hpa hpb
+  rw [pa] at hpa; rw [pb] at hpb
+  exact hdis hoa hob p (List.mem_filter.mp hpa).1 (List.mem_filter.mp hpb).1
+
+/-- "For every reported group the listed proteins are the members with at least one evidence peptide at or
+    below the peptide-level PEP cutoff (all members when keep-all is set), each paired with its number of
+    distinct such peptides …; majority proteins are those with at least half the maximal count, the best
+    peptide is the evidence peptide with the lowest PEP, and the protein number and the decoy and
+    contaminant flags match the listed proteins" — for every row of the table returned by ANY successful
+    call on a dict input: the row comes from a rank `i` of the reported pass whose group `x.group` is not a
+    placeholder and is the `j`-th group of that pass's grouping; the evidence it is measured against,
+    `x.evidence`, is exactly what `collect_peptide_scores_per_protein` (C05) assigns to that group from
+    the peptide list (and holds every peptide once); the cutoff is `r.cutoff` (the rescue pass's peptide
+    PEP cutoff, `inf` = none without a rescue pass); and every field of the row is the stated function of
+    `x.group` and `x.evidence`.  The `Consistent` hypothesis of the stage theorems is discharged. -/
+theorem pipeline_rows_consistent (cfg : Pipeline.Config) (inp : Pipeline.Input) (r : Pipeline.Result)
+    (h : Pipeline.run cfg inp = .ok r) (hk : Pipeline.distinctPeptides inp.pil) :
+    ∀ row ∈ r.rows, ∃ (i j : Nat) (x : C02.Item),
+      r.final.ranking[i]? = some x ∧ isObsolete x.group = false ∧
+      r.final.groups[j]? = some x.group ∧
+      x.evidence = inp.pil.filterMap (C05.evFor r.final.groups (Pipeline.razorOf cfg inp) j) ∧
+      (x.evidence.map (·.peptide)).Nodup ∧
+      row.score = x.score ∧ r.final.qvals[i]? = some row.qValue ∧
+      row.proteins = x.group.filter (fun p => inp.keepAll || decide (0 < distinctCount r.cutoff x.evidence p)) ∧
+      row.proteins ≠ [] ∧
+      row.counts = row.proteins.map (distinctCount r.cutoff x.evidence) ∧
+      (∃ M, M ∈ row.counts ∧ (∀ c ∈ row.counts, c ≤ M) ∧
+        row.majority = row.proteins.filter (fun p => decide (M ≤ 2 * distinctCount r.cutoff x.evidence p))) ∧
+      (∃ e ∈ x.evidence, e.peptide = row.bestPeptide ∧
+        ∀ e' ∈ x.evidence, e.pep ≤ e'.pep ∧ (e'.pep = e.pep → e.peptide ≤ e'.peptide)) ∧
+      row.numberOfProteins = row.proteins.length ∧
+      row.reverse = isDecoy row.proteins ∧ row.contaminant = isContaminant row.proteins := by
+  obtain ⟨hp, hrows⟩ := Pipeline.final_spec cfg inp r h
+  obtain ⟨-, hnd, horig⟩ := Pipeline.final_ranking_facts cfg inp r h hk
+  have hr : fromProteinGroups (r.final.ranking.map (·.group)) (r.final.ranking.map (·.evidence))
+      (r.final.ranking.map (·.score)) r.final.qvals r.cutoff inp.keepAll = .ok r.rows := by
+    rw [hrows]; exact hp.rows
+  have hc : ∀ info ∈ r.final.ranking.map (·.evidence), Consistent info := by
+    intro info hinfo
+    obtain ⟨x, hx, rfl⟩ := List.mem_map.mp hinfo
+    exact consistent_of_nodup _ (hnd x hx)
+  intro row hrow
+  obtain ⟨i, g, info, hg, hi, ho, hs, hq, rest⟩ := reported_rows_consistent _ _ _ _ _ _ _ hr hc row hrow
+  rw [List.getElem?_map] at hg hi hs
+  cases hx : r.final.ranking[i]? with
+  | none => rw [hx] at hg; simp at hg
+  | some x =>
+    rw [hx] at hg hi hs
+    simp only [Option.map_some, Option.some.injEq] at hg hi hs
+    subst hg; subst hi
+    have hxm : x ∈ r.final.ranking := List.mem_of_getElem? hx
+    obtain ⟨j, -, hj1, -, hj3⟩ := horig x hxm ho
+    exact ⟨i, j, x, hx, ho, hj1, hj3, hnd x hxm, hs.symm, hq, rest⟩
+
+/-- "… and no protein occurs in two rows" — the full statement, for the table returned by ANY successful
+    call on a dict input, every configuration: no protein is listed by two rows, and no row lists a protein
+    twice.  Composition: the first-pass groups are a partition (C03 `subset_partition` /
+    `nogrouping_singletons` / `pseudogene_partition`), the rescue pass's groups are again a partition of
+    the same proteins (C04 `rescue_partition_subset`), the placeholders appended for the second
+    competition are `is_obsolete` and so never reported (C04 `placeholders_never_reported`), the ranking is
+    a rearrangement of a sub-list of the groups handed to the competition (C02 `survivors_unchanged`,
+    `doCompetition_subperm`), and a row lists a sub-list of its own ranked group (`report_alignment`).
+    No hypothesis on the identifiers is needed (a protein whose name contains `OBSOLETE__` only makes its
+    group unreported). -/
+theorem pipeline_rows_disjoint (cfg : Pipeline.Config) (inp : Pipeline.Input) (r : Pipeline.Result)
+    (h : Pipeline.run cfg inp = .ok r) (hk : Pipeline.distinctPeptides inp.pil) :
+    r.rows.Pairwise (fun a b => ∀ p, p ∈ a.proteins → p ∉ b.proteins) ∧
+    ∀ row ∈ r.rows, row.proteins.Nodup := by
+  obtain ⟨hp, hrows⟩ := Pipeline.final_spec cfg inp r h
+  obtain ⟨hdis, -, -⟩ := Pipeline.final_ranking_facts cfg inp r h hk
+  have hf := Pipeline.final_facts cfg inp r h hk
+  have hr := hp.rows
+  rw [← hrows] at hr
+  refine ⟨rows_disjoint_regular _ _ _ _ _ _ _ hr hdis, ?_⟩
+  intro row hrow
+  obtain ⟨i, j, x, -, -, hj, -, -, -, -, hprot, -⟩ := pipeline_rows_consistent cfg inp r h hk row hrow
+  rw [hprot]
+  exact ((List.nodup_flatten.mp hf.groups_nodup).1 _ (List.mem_of_getElem? hj)).filter _
+
+/-! Non-vacuity of the pipeline theorems: the two successful calls of `Proofs/Pipeline.lean` (one pass:
+protein-level picking without grouping; two passes: rescued subset grouping + picked-group competition with
+a placeholder group in the second competition) on a dict input. -/
+
+example : ∃ r, Pipeline.run Pipeline.demoCfg1 Pipeline.demoInp1 = .ok r ∧
+    Pipeline.distinctPeptides Pipeline.demoInp1.pil ∧ r.rows.map (·.proteins) = [["A"], ["REV__B"]] := by
+  obtain ⟨r, h, -, -, h3, -⟩ := Pipeline.demo_run1
+  exact ⟨r, h, Pipeline.demo_distinct.1, by rw [h3]; rfl⟩
+
+example : ∃ r, Pipeline.run Pipeline.demoCfg2 Pipeline.demoInp2 = .ok r ∧
+    Pipeline.distinctPeptides Pipeline.demoInp2.pil ∧ r.rescued = true ∧
+    r.final.compGroups = [["A"], ["REV__B"], ["OBSOLETE__A"]] ∧
+    r.rows.map (·.proteins) = [["A"], ["REV__B"]] := by
+  obtain ⟨r, h, -, -, h3, h4, h5⟩ := Pipeline.demo_run2
+  exact ⟨r, h, Pipeline.demo_distinct.2, h5, h4, by rw [h3]; rfl⟩
 
 end PgFdr.C06
